@@ -235,6 +235,26 @@ impl Monitor for C16 {
                     sigkey = format!("all-{}={}", name, class);
                 }
             }
+            4 => {
+                // several fields of ONE program header at once (a header is read as a unit: vaddr + sizes + offset)
+                let fs = fields(&bytes, &layout);
+                let heads: Vec<usize> = fs.iter().filter(|f| f.name == "p_vaddr").map(|f| f.off).collect();
+                if let Some(&voff) = heads.get(rng.below(heads.len().max(1) as u64) as usize) {
+                    // the fields of a 56-byte Elf64_Phdr relative to p_vaddr (+16): offset -8, filesz +16, memsz +24, flags -12, type -16
+                    let base = voff - 16;
+                    let mut parts = Vec::new();
+                    for (name, rel, size) in [("p_vaddr", 16usize, 8usize), ("p_memsz", 40, 8), ("p_filesz", 32, 8), ("p_offset", 8, 8)] {
+                        if rng.below(3) != 0 {
+                            let cur = rd(&bytes, base + rel, size);
+                            let (v, class) = mutate_value(rng, cur, size, flen);
+                            wr(&mut bytes, base + rel, size, v);
+                            what.push(format!("{}@{:#x}: {:#x} -> {:#x} [{}]", name, base + rel, cur, v, class));
+                            parts.push(format!("{}={}", name, class));
+                        }
+                    }
+                    sigkey = format!("one-header:{}", parts.join("+"));
+                }
+            }
             2 => {
                 // random byte flips anywhere
                 for _ in 0..rng.range(1, 8) {
